@@ -29,7 +29,7 @@ from srcgen import Tok, matching   # noqa: E402
 from rustlite import Untranslatable, U8_METHODS   # noqa: E402
 
 LEAN_TY = {"vec": "Bytes", "string": "Bytes", "u8": "UInt8", "bool": "Bool", "usize": "Nat", "vecstr": "List Bytes",
-           "time": "Int", "dur": "Int", "unit": "Unit", "msgvec": "Nat", "map": "List (Bytes × List Bytes)", "vecpair": "List (Bytes × Bytes)"}
+           "time": "Int", "dur": "Int", "unit": "Unit", "msgvec": "Nat", "map": "List (Bytes × List Bytes)", "vecpair": "List (Bytes × Bytes)", "byteiter": "Bytes"}
 
 KINDS = ["ExpiredToken", "IO", "InternalServiceError", "InvalidBodyEncoding", "InvalidClientTokenId", "InvalidContentType",
          "InvalidRequestMethod", "IncompleteSignature", "InvalidURIPath", "MalformedQueryString", "MissingAuthenticationToken",
@@ -199,6 +199,18 @@ class OFn:
             self.eat(); r = ("([" + ", ".join("0x%02X" % b for b in t.v) + "] : Bytes)", "string" if t.k == "str" else "vec")
         elif t.k == "id" and t.v in ("true", "false"):
             self.eat(); r = (t.v, "bool")
+        elif t.k == "p" and t.v == "[" and self.peek(1).k == "num" and self.at(";", 2) and self.peek(3).k == "num" and self.at("]", 4):
+            v, n = self.peek(1).v, self.peek(3).v
+            self.pos += 5
+            if v > 255 or n > 64:
+                raise Untranslatable("array literal")
+            r = ("([" + ", ".join(str(v) for _ in range(n)) + "] : Bytes)", "vec")
+        elif t.k == "id" and t.v == "u8" and self.at("::", 1) and self.peek(2).v == "from_str_radix":
+            self.pos += 3
+            a = self.args()
+            if a[1][0] != "16" or a[0][1] != "string":
+                raise Untranslatable("from_str_radix other than (str, 16)")
+            r = (f"(Rust.u8FromStrRadix16 {a[0][0]})", "opt:u8")
         elif t.k == "id" and t.v == "match":
             return self.match_expr()
         elif t.k == "id" and t.v == "if":
@@ -393,6 +405,9 @@ class OFn:
                         raise Untranslatable("format string other than %Y%m%d / %Y%m%dT%H%M%SZ in value position")
                 elif m == "is_empty" and ty == "msgvec":
                     self.eat("("); self.eat(")"); r = (f"({e} == 0)", "bool")
+                elif m == "bytes" and ty == "string":
+                    self.eat("("); self.eat(")")
+                    r = (e, "byteiter")
                 elif m == "iter" and ty == "vecstr":
                     self.eat("("); self.eat(")")
                     r = (e, ty)
@@ -438,7 +453,7 @@ class OFn:
             elif self.at("as"):
                 self.eat(); ty2 = self.eat(k="id").v
                 if ty == "u8" and ty2 == "char":
-                    r = (e, "msg")     # only ever used inside error texts
+                    r = (f"({e}).toNat", "char")
                 elif ty == "u8" and ty2 == "usize":
                     r = (f"({e}).toNat", "usize")
                 else:
@@ -634,7 +649,15 @@ class OFn:
                 return [f"{ind}{name} := (← Rust.subUsize {name} ({e}) {self.sitestr('sub')})"]
             if n1.k == "p" and n1.v == "[":
                 # v[i] = x;
-                self.eat(); self.eat("["); i, _ = self.expr(0); self.eat("]"); self.eat("="); e, _ = self.expr(0); self.eat(";")
+                self.eat(); self.eat("["); i, _ = self.expr(0); self.eat("]"); self.eat("=")
+                if self.peek().k == "id" and self.types.get(self.peek().v) == "byteiter" and self.at(".", 1) and self.peek(2).v == "next":
+                    it = self.eat().v; self.eat("."); self.eat("next"); self.eat("("); self.eat(")")
+                    self.eat("."); self.eat("expect"); self.skip_balanced(); self.eat(";")
+                    self.counter += 1
+                    k = self.counter
+                    return [f"{ind}let nx_{k} ← Rust.unwrapOpt (Rust.iterNext {it}) {self.sitestr('expect')}", f"{ind}{it} := nx_{k}.2",
+                            f"{ind}{name} := (← Rust.setIdx {name} ({i}) nx_{k}.1 {self.sitestr('index-assign')})"]
+                e, _ = self.expr(0); self.eat(";")
                 f = "Rust.setIdxS" if ty == "vecstr" else "Rust.setIdx"
                 return [f"{ind}{name} := (← {f} {name} ({i}) {e} {self.sitestr('index-assign')})"]
             if n1.k == "p" and n1.v == ".":
@@ -656,6 +679,10 @@ class OFn:
                         self.eat(";")
                     elif not self.at("}"):
                         raise Untranslatable("expected ; or }")
+                    if m == "push" and ty == "string":
+                        if a[0][1] != "char":
+                            raise Untranslatable("push of a non-char onto a String")
+                        return [f"{ind}{name} := {name} ++ Rust.utf8 ({a[0][0]})"]
                     if m == "push" and ty == "msgvec":
                         if a[0][1] != "msg":
                             raise Untranslatable("push of a non-message onto a message list")
@@ -707,6 +734,8 @@ class OFn:
 
     def while_stmt(self, ind):
         self.eat("while")
+        if self.at("let"):
+            return self.while_let_next(ind)
         outer = self.loop
         self.counter += 1
         n = self.counter
@@ -718,6 +747,45 @@ class OFn:
                 [f"{i2}else", f"{i3}done{n} := true", f"{i3}break", f"{ind}if !done{n} then", f"{i2}let _ ← (Outcome.panic \"fuel\" : Outcome Unit)"]
         self.loop = outer
         return lines
+
+    def while_let_next(self, ind):
+        """`while let Some(c) = it.next() { … }` over a byte iterator."""
+        self.eat("let"); self.eat("Some"); self.eat("(")
+        c = self.eat(k="id").v
+        self.eat(")"); self.eat("=")
+        it = self.eat(k="id").v
+        if self.types.get(it) != "byteiter":
+            raise Untranslatable("while let over " + it)
+        self.eat("."); self.eat("next"); self.eat("("); self.eat(")")
+        outer = self.loop
+        self.counter += 1
+        n = self.counter
+        self.loop = n
+        i2, i3 = ind + "  ", ind + "    "
+        self.types[c] = "u8"
+        body = self.block(i3)
+        lines = [f"{ind}let mut done{n} := false", f"{ind}for _ in List.range fuel do", f"{i2}match Rust.iterNext {it} with",
+                 f"{i2}| some ({c}, rest_{n}) =>", f"{i3}{it} := rest_{n}"] + body + \
+                [f"{i2}| none =>", f"{i3}done{n} := true", f"{i3}break", f"{ind}if !done{n} then", f"{i2}let _ ← (Outcome.panic \"fuel\" : Outcome Unit)"]
+        self.loop = outer
+        return lines
+
+    def arm_body(self, ind):
+        """A match arm that is either a block or a single statement-like expression ending at `,`."""
+        if self.at("{"):
+            return self.block(ind)
+        if self.at("panic") and self.at("!", 1):
+            self.eat(); self.eat("!"); self.skip_balanced()
+            return [f"{ind}let _ ← (Outcome.panic {self.sitestr('panic')} : Outcome Unit)"]
+        # x.push(e)
+        t = self.peek()
+        if t.k == "id" and t.v in self.types and self.at(".", 1) and self.peek(2).v == "push":
+            name = self.eat().v; self.eat("."); self.eat("push"); a = self.args()
+            if self.types[name] == "string" and a[0][1] == "char":
+                return [f"{ind}{name} := {name} ++ Rust.utf8 ({a[0][0]})"]
+            if self.types[name] in ("vec",) and a[0][1] in ("u8", "num"):
+                return [f"{ind}{name} := {name} ++ [{a[0][0]}]"]
+        raise Untranslatable("match arm body")
 
     def match_stmt(self, ind):
         """statement-level `match e { Ok(v) => {…} Err(_) => {…} }` on an Option-like value (hex::decode)."""
@@ -732,7 +800,7 @@ class OFn:
                 self.eat(); self.eat("("); v = self.eat(k="id").v; self.eat(")"); self.eat("=>")
                 saved = self.types.get(v)
                 self.types[v] = sty[4:]
-                body = self.block(ind + "  ")
+                body = self.arm_body(ind + "  ")
                 lines += [f"{ind}| some {v} =>"] + body
                 if saved is None:
                     del self.types[v]
@@ -740,7 +808,7 @@ class OFn:
                     self.types[v] = saved
             elif self.at("Err"):
                 self.eat(); self.eat("("); self.eat("_"); self.eat(")"); self.eat("=>")
-                body = self.block(ind + "  ")
+                body = self.arm_body(ind + "  ")
                 lines += [f"{ind}| none =>"] + body
             else:
                 raise Untranslatable("match arm")
@@ -820,7 +888,10 @@ def _match_is_stmt(f):
     while not (f.toks[i].k == "p" and f.toks[i].v == "{"):
         i += 1
     t = f.toks[i + 1]
-    return t.k == "id" and t.v in ("Ok", "Err") and f.toks[i + 2].v == "(" and f.toks[matching(f.toks, i + 2) + 1].v == "=>" and f.toks[matching(f.toks, i + 2) + 2].v == "{"
+    if not (t.k == "id" and t.v in ("Ok", "Err") and f.toks[i + 2].v == "(" and f.toks[matching(f.toks, i + 2) + 1].v == "=>"):
+        return False
+    nxt = f.toks[matching(f.toks, i + 2) + 2]
+    return nxt.v == "{" or (nxt.k == "id" and (nxt.v == "panic" or nxt.v in f.types))
 
 
 def tail(f, ind):
